@@ -53,9 +53,9 @@ func c15Judge(c *Ctx, cs *Case) {
 	}
 	c.Begin(cs)
 	var o *Obs
-	m := RunModel(cs.Src, "", false, 0)
+	m := RunModel(cs.Src, cs.Stdin, false, 0)
 	if cs.Mode == "cli" {
-		o = RunCLI(CLIOpts{Bin: c.Bin, Src: cs.Src, Dir: c.Scratch})
+		o = RunCLI(CLIOpts{Bin: c.Bin, Src: cs.Src, Stdin: cs.Stdin, Dir: c.Scratch})
 		c.Count("cli_runs", 1)
 		if o.TimedOut {
 			c.Inconclusive("CLI watchdog")
@@ -66,7 +66,7 @@ func c15Judge(c *Ctx, cs *Case) {
 		if m.Res != nil {
 			steps = m.Res.Steps
 		}
-		o = RunLib(cs.Src, RunOpts{MaxSteps: int64(100*steps + 10000)})
+		o = RunLib(cs.Src, RunOpts{MaxSteps: int64(100*steps + 10000), Stdin: cs.Stdin})
 	}
 	if CompareModel(c, m, o, JudgeOpts{CLI: cs.Mode == "cli"}) != "" {
 		return
@@ -177,6 +177,8 @@ func c15Run(c *Ctx) {
 		// characters that are invisible or only shape their neighbours are characters of the string all the same
 		"\u09b0\u200d\u09cd\u09af", "\u0995\u09cd\u200c\u0995", "shelf\u200cful", "\u200d", "\u200c\u200c", "a\u200bb", "\ufeffx", "x\ufeff", "x\u00ady", "a\u00a0b", "a\u2060b", "tab\there",
 		"a\u200e\u200fb", "x\ufe0f", "\u2764\ufe0e", "a\u034fb", "\u061c", "\u180e", "a\u2028b", "a\u0085b", "a\x7fb", "a\x01b", "a\rb", " lead", "trail ", "  ", "\u3000", "a\u2009b", "\U000e0001", "\U0001f468\u200d\U0001f469",
+		// compatibility characters are not folded: only canonical composition applies
+		"m\u00b2", "\u099a\u09b2\u09ac\u09c7\u2026", "\u2122", "\u00bd kg", "\u00b5", "\u03bc", "\ufb01", "\u2460", "x\u00a0y", "\uff21", "\u2075", "\u3392",
 		// line breaks are characters too: print still adds exactly one newline of its own
 		"heading\n", "\n", "\n\n", "a\nb\n\n", "x\r\n", "\nlead", "mid\ndle", "total: 42\n"}
 	for _, s := range strs {
@@ -239,6 +241,25 @@ func c15Run(c *Ctx) {
 		}
 		if c.Mine() {
 			c15Judge(c, &Case{Gen: "containers-and-constants-cli", Mode: "cli", Src: src})
+		}
+	}
+	// 4a. texts that arrive through ইনপুট are shown like any other text (digits of either script, marks, per-cent signs …)
+	for _, line := range []string{"\u09ac\u09df\u09b8 \u09e8\u09eb", "\u09e7\u09e8\u09e9", "12\u09e9abc", "100% \u09e6", "e\u0301\u09dc", "m\u00b2 \u00bd", "a\u200cb \u200d", "  padded \u09ea  "} {
+		src := Lines(Var("v", BI("input")), Print("v"), Print("[v, 1]"), Print(`"<" + v + ">"`), Print("v + 1"), Print("{k: v}"), Var("w", BI("input", `"p: "`)), Print("[w]"))
+		if c.Mine() {
+			c15Judge(c, &Case{Gen: "input-texts", Src: src, Stdin: line + "\n" + line + "\n"})
+		}
+		if c.Mine() {
+			c15Judge(c, &Case{Gen: "input-texts-cli", Mode: "cli", Src: src, Stdin: line + "\n" + line + "\n"})
+		}
+	}
+	// an array that holds what রিমুভ / এড made from it is not a self-containing value
+	for _, src := range []string{
+		Lines(Var("a", "[1, 2, 3]"), Var("b", BI("remove", "a", "2")), "a[2] = b;", Print("a"), Print("b"), Var("p", `["home", "docs", "a.txt"]`), Var("f", "{name: p[2], dir: "+BI("remove", "p", "2")+"}"), "p[0] = f;", Print("f"), Print("p")),
+		Lines(Var("a", "[1, 2]"), Var("b", BI("append", "a", "3")), Var("c2", BI("remove", "b", "2")), "b[0] = c2; a[0] = b;", Print("a"), Print("b"), Print("c2"), Var("e", BI("remove", "[7]", "0")), Var("h", "[e, e]"), Print("h")),
+	} {
+		if c.Mine() {
+			c15Judge(c, &Case{Gen: "derived-arrays", Src: src})
 		}
 	}
 	// 4b. a print whose operand fails prints nothing; prints on later interactive lines are unaffected
